@@ -259,6 +259,9 @@ pub fn models(tier: Tier, seed: u64) -> Vec<Box<dyn DynModel>> {
         // operation histories over both groups: signing is deterministic whatever ran before on the same thread
         bounded(h, d),
     ]
+    .into_iter()
+    .chain(crate::props::tsurf::models("C01", tier, seed))
+    .collect()
 }
 
 pub fn describe(tier: Tier, r: &mut Report) {
